@@ -1,6 +1,7 @@
 package chainsim
 
 import (
+	etypes "github.com/ovrclk/akash/x/escrow/types"
 	dbm "github.com/tendermint/tm-db"
 	"bytes"
 	"encoding/json"
@@ -104,7 +105,37 @@ func (w *World) exportImport(r *core.Run, chk *checkerSet, L *Ledger) (viol *cor
 			}
 		}
 	}
-	_ = before
+	// what is exported must be what is stored (record by record, decoded independently from the raw store)
+	if raw, ok := gs["escrow"]; ok {
+		var eg etypes.GenesisState
+		if err := w.Cdc.UnmarshalJSON(raw, &eg); err == nil {
+			same := len(eg.Accounts) == len(before.Accounts) && len(eg.Payments) == len(before.Payments)
+			diff := fmt.Sprintf("exported %d accounts / %d payments, stored %d / %d", len(eg.Accounts), len(eg.Payments), len(before.Accounts), len(before.Payments))
+			for i := range eg.Accounts {
+				a := eg.Accounts[i]
+				st, ok := before.Accounts[acctKey(a.ID)]
+				if !ok || !bytes.Equal(w.Cdc.MustMarshalJSON(&a), w.Cdc.MustMarshalJSON(&st)) {
+					same, diff = false, fmt.Sprintf("account %s exported as %s, stored as %s", acctKey(a.ID), w.Cdc.MustMarshalJSON(&a), w.Cdc.MustMarshalJSON(&st))
+					break
+				}
+			}
+			for i := range eg.Payments {
+				p := eg.Payments[i]
+				k := acctKey(p.AccountID) + "/" + p.PaymentID
+				st, ok := before.Payments[k]
+				if !ok || !bytes.Equal(w.Cdc.MustMarshalJSON(&p), w.Cdc.MustMarshalJSON(&st)) {
+					same, diff = false, fmt.Sprintf("payment %s exported as %s, stored as %s", k, w.Cdc.MustMarshalJSON(&p), w.Cdc.MustMarshalJSON(&st))
+					break
+				}
+			}
+			if !same {
+				r.Count("export-differs-from-state:escrow")
+				if v := chk.importChanged(w, "escrow", diff); v != nil {
+					return v
+				}
+			}
+		}
+	}
 	// import: a fresh application is booted from the exported state (a chain restarted from an export)
 	// and exports again - what a module stores must survive the round trip unchanged
 	var imported map[string]json.RawMessage
